@@ -7,7 +7,7 @@
    Method: proofs/GoMemProofs.v (canonical form sl_put) + one lemma per loop shape. *)
 From Coq Require Import NArith ZArith List Bool Lia ZifyBool ZifyN ZifyNat.
 Require Import Bytes GoSlices GoMem GoMemProofs Translated3.
-Require Import Stream Check Frame Extracted ExtractedOk Cipher BytesProofs CipherProofs.
+Require Import Stream Check Frame Extracted ExtractedOk Cipher BytesProofs CipherProofs Utf8Dfa.
 Import ListNotations.
 Open Scope Z_scope.
 
@@ -530,4 +530,39 @@ Proof.
     rewrite Nat2Z.id. unfold byte in *. rewrite !firstn_all2 by lia. reflexivity.
   - rewrite repeat_length. lia.
   - rewrite zb_length, app_length. cbn [be_bytes length]. unfold byte in *. lia.
+Qed.
+
+(* ================================================================== wsutil/utf8.go decode *)
+(* the DFA states: multiples of 12 up to 96; every entry of the transition part of utf8d is one *)
+Definition u8_states : list Z := [0; 12; 24; 36; 48; 60; 72; 84; 96].
+
+Definition decode_chk (st b : Z) : bool :=
+  match go_index g3_pv_wsutil_utf8d b with
+  | Ok t =>
+    match go_index g3_pv_wsutil_utf8d (wrap_u 32 (wrap_u 32 (256 + st) + t)) with
+    | Ok s' => (s' =? Z.of_N (u8_decode (Z.to_N st) (Z.to_N b))) && existsb (Z.eqb s') u8_states
+    | _ => false
+    end
+  | _ => false
+  end.
+
+Lemma decode_chk_all :
+  forallb (fun st => forallb (fun k => decode_chk st (Z.of_nat k)) (seq 0 256)) u8_states = true.
+Proof. vm_compute. reflexivity. Qed.
+
+(* decode(state, codep, b): for every DFA state, every codep and every byte: no index panic, the new state
+   is the model's u8_decode and is again a DFA state; the world is not touched *)
+Theorem g3_wsutil_decode_ok st cp b w : In st u8_states -> 0 <= b < 256 ->
+  exists cp', g3_wsutil_decode st cp b w = Ok ((cp', Z.of_N (u8_decode (Z.to_N st) (Z.to_N b))), w)
+              /\ In (Z.of_N (u8_decode (Z.to_N st) (Z.to_N b))) u8_states.
+Proof.
+  intros Hst Hb. pose proof decode_chk_all as H. rewrite forallb_forall in H. specialize (H st Hst).
+  rewrite forallb_forall in H. specialize (H (Z.to_nat b)). rewrite Z2Nat.id in H by lia.
+  assert (Hin : In (Z.to_nat b) (seq 0 256)) by (apply in_seq; lia). specialize (H Hin).
+  unfold decode_chk in H. unfold g3_wsutil_decode.
+  destruct (go_index g3_pv_wsutil_utf8d b) as [t| |]; try discriminate. rewrite mbind_lift_ok. cbv zeta.
+  destruct (go_index g3_pv_wsutil_utf8d (wrap_u 32 (wrap_u 32 (256 + st) + t))) as [s'| |]; try discriminate.
+  apply andb_prop in H. destruct H as [H1 H2]. apply Z.eqb_eq in H1. subst s'.
+  apply existsb_exists in H2. destruct H2 as (x & Hx & Ex). apply Z.eqb_eq in Ex. subst x.
+  destruct (negb (st =? 0)); rewrite mbind_lift_ok; cbv [ret]; eexists; (split; [reflexivity|exact Hx]).
 Qed.
